@@ -65,6 +65,8 @@ class Cfg(object):
         self.text = st.text(alphabet=st.characters(min_codepoint=32, max_codepoint=126), max_size=12)
         self.uniform_channel = False  # every note of a track on one channel
         self.empty_containers = False  # some rests are written as an empty container ([]) instead of None
+        self.bpm_on_empty = False  # a tempo may also ride on an empty container (a tempo mark on a silent beat)
+        self.share_instruments = False  # tracks of a composition may share one instrument object
         self.twin_p = 0  # 0 = never; otherwise one bar in twin_p is followed by its enharmonic twin (same pitches, other spelling)
         self.__dict__.update(kw)
 
@@ -119,7 +121,7 @@ def bar_st(draw, cfg, meter=None, key=None, fill=None, channel=None):
 
 def _entry(draw, cfg, v, content):
     e = {"v": list(v), "notes": draw(content)}
-    if cfg.bpm_p and e["notes"] and draw(st.integers(0, cfg.bpm_p - 1)) == 0:
+    if cfg.bpm_p and (e["notes"] or (cfg.bpm_on_empty and e["notes"] == [])) and draw(st.integers(0, cfg.bpm_p - 1)) == 0:
         e["bpm"] = draw(cfg.bpms)
     return e
 
@@ -168,8 +170,18 @@ def track_st(draw, cfg):
 @st.composite
 def comp_st(draw, cfg):
     n = draw(st.integers(1, cfg.max_tracks))
-    return {"title": draw(cfg.text), "subtitle": draw(cfg.text), "author": draw(cfg.text),
-            "tracks": [draw(track_st(cfg)) for _ in range(n)]}
+    tracks = [draw(track_st(cfg)) for _ in range(n)]
+    comp = {"title": draw(cfg.text), "subtitle": draw(cfg.text), "author": draw(cfg.text), "tracks": tracks}
+    if cfg.share_instruments and n > 1 and draw(st.booleans()):
+        # several tracks played on one and the same instrument object
+        donors = [t["instr"] for t in tracks if t["instr"]]
+        if donors:
+            for t in tracks[1:]:
+                if draw(st.booleans()):
+                    t["instr"] = donors[0]
+            tracks[0]["instr"] = donors[0]
+            comp["share_instruments"] = True
+    return comp
 
 
 # ---- classification helpers (shared non-triviality vocabulary) ------------------------------------------
